@@ -453,6 +453,14 @@ class ExprMixin(ExecBase):
             i2 = i if self.spec_mode else z3.If(i < 0, i + n, i)
             return self.list_at(base, i2)
         if k == 'dict':
+            if (not self.spec_mode and base.loc is not None and base.loc[0] == 'field' and base.loc[1] in getattr(self.spec, 'defaultdict_fields', ())
+                    and base.ty.args[1].kind == 'list'):
+                # collections.defaultdict(list): a missing key is inserted with an empty list
+                if not self.branch(self.dict_has(base, idx), 'defaultdict_has_key'):
+                    et = base.ty.args[1].args[0]
+                    empty = self.mk_list(et, z3.K(z3.IntSort(), to_smt(fresh(et, 'dflt'))), z3.IntVal(0))
+                    self.write_loc(base.loc, self.dict_set(base, idx, empty))
+                    base = self.refresh(base)
             self.safety('KeyError', self.dict_has(base, idx), 'dict_key')
             v = self.dict_get_raw(base, idx)
             if base.loc is not None and v.ty.kind in ('list', 'dict', 'set'):
